@@ -233,7 +233,7 @@ func r05_5(c *Ctx, r *Report) {
 	likeWithLikeRule(c, r, "R05.5", func(fn *ssa.Function) bool {
 		n := fname(fn)
 		return n == "calendar.computeYear" || n == "calendar.computeMonth" || n == "calendar.computeDay" || n == "LunarUtil.GetTimeZhiIndex"
-	}, 10)
+	}, 4)
 	const rule = "R05.5"
 	// the Lichun of the civil year
 	fn := c.Fn(r, rule, "calendar.computeYear")
